@@ -151,18 +151,28 @@ Definition doc_of (t : tree) : option string :=
   | [] => None
   end.
 
-Fixpoint members_of (md : mode) (allow_ub : bool) (ts : list tree) (pending : option string)
+(* what a COMMENT pair does to the pending documentation.  The pinned upstream code overwrote
+   it with Documentation::try_from(rule).ok() (an ordinary comment discards it); the repaired code
+   (PstFacts.pst_comment_keeps_doc) replaces it only by a newer documentation block. *)
+Definition next_pending (keep : bool) (pending : option string) (c : tree) : option string :=
+  match doc_of c with
+  | Some d => Some d
+  | None => if keep then pending else None
+  end.
+
+Fixpoint members_of_gen (keep : bool) (md : mode) (allow_ub : bool) (ts : list tree) (pending : option string)
   : outcome (list inode) :=
   match ts with
   | [] => Ok []
   | t :: r =>
-      if is_rule "COMMENT" t then members_of md allow_ub r (doc_of t)
+      if is_rule "COMMENT" t then members_of_gen keep md allow_ub r (next_pending keep pending t)
       else if is_rule "const" t || is_rule "function" t || is_rule "error" t then
         do m <- member_of md allow_ub pending t;
-        do ms <- members_of md allow_ub r None;
+        do ms <- members_of_gen keep md allow_ub r None;
         Ok (m :: ms)
       else Reject ROther
   end.
+Definition members_of := members_of_gen pst_comment_keeps_doc.
 
 (* parse_interface *)
 Definition iface_of (md : mode) (allow_ub : bool) (t : tree) : outcome idef :=
